@@ -559,6 +559,15 @@ def run(chk, P):
     chk.floor('R19.8', 3)
     r19_9(chk, P)
     chk.floor('R19.9', 8)
+    from rules import c07
+    import k3
+    E = getattr(P, '_effects', None) or k3.Effects(P)
+    P._effects = E
+    chk.rule('R19.10', 'the lapped seeks take the second set of lapping parameters (channel count, block size, window) from the link '
+             'the seek landed in: no value derived from the current link before the seek is used after it without being '
+             'recomputed (same obligations as R07.6, in the lapped seek workers and ov_crosslap)')
+    c07.r07_6(common.Proxy(chk, 'R19.10'), P, E, rule='R19.10', only={'_ov_64_seek_lap', '_ov_d_seek_lap', 'ov_crosslap', '_ov_getlap', '_ov_initset', '_ov_initprime'})
+    chk.floor('R19.10', 2)
     r19_6(chk, P)
     chk.floor('R19.6', 4)
     r19_5(chk, P)
